@@ -1,7 +1,7 @@
 """C03 - identifiers stay stable through the whole simulation lifecycle."""
 import ast
 
-from engine.astutil import U, attr_tail
+from engine.astutil import U, attr_tail, walk_own, call_name, calls, single_defs, inline
 from engine import idscope
 from engine.repo import AnalysisError
 from . import common
@@ -25,8 +25,9 @@ RULES = {
     "R4": "ExperimentSpace.from_screen passes the screen's mapping objects; sizes derive from the mapping tuple",
     "R5": "a supplied mapping is used and handed back verbatim by both encoders (shared with C01.R5)",
     "R6": "Screen.__init__ passes the supplied treatment / sample mapping to the encoders as existing_mapping; the mapping properties return what the encoders handed back",
+    "R7": "the saved training and test screens are the two results of one hold-out split, saved as returned: nothing re-encodes (smooths, regenerates, combines) one half after the split",
 }
-MIN = {"R1": 12, "R2": 2, "R3": 5, "R4": 3, "R5": 4, "R6": 3}
+MIN = {"R1": 12, "R2": 2, "R3": 5, "R4": 3, "R5": 4, "R6": 3, "R7": 1}
 TRUSTED = ["python ast semantics", "numpy boolean indexing keeps row order", "call graph: typed resolution + name-CHA "
            "fallback (over-approximate); dynamic class lookup via introspection.get_class is assumed to yield "
            "subclasses of the declared base"]
@@ -279,7 +280,64 @@ def r6(ctx):
     ctx.borrow(C02.r4, "R6")
 
 
-RULE_FUNCS = [r1, r2, r3, r4, r5, r6]
+REENCODING = {"smooth_plates", "generate_plates", "generate_and_unmask_initial_plate", "combine", "to_screen", "concat"}
+PRESERVING = {"reveal_plates", "mask_screen", "unmask_screen"}
+
+
+def r7(ctx):
+    """The split copies the parent's mappings into both halves (R1); a step applied to one half afterwards that rebuilds the screen from
+    names (every smoother / generator goes through to_screen + combine) gives that half a universe of its own.  In the preparation
+    command both saved screens are the names bound by the one split, and no statement after the split re-binds either to a re-encoded screen."""
+    f = ctx.fn("batchie.cli.prepare_retrospective_simulation.main")
+    SPLIT = "create_plate_balanced_holdout_set_among_masked_plates"
+    sp = [st for st in walk_own(f.node) if isinstance(st, ast.Assign) and isinstance(st.value, ast.Call) and call_name(st.value) == SPLIT]
+    ctx.need(len(sp) == 1 and isinstance(sp[0].targets[0], ast.Tuple) and len(sp[0].targets[0].elts) == 2 and all(isinstance(e, ast.Name) for e in sp[0].targets[0].elts),
+             f"{f.site()}: the hold-out split `a, b = {SPLIT}(..)` was not found once")
+    halves = [e.id for e in sp[0].targets[0].elts]
+    saves = [c for c in calls(f.node) if attr_tail(c) == "save_h5"]
+    ctx.need(len(saves) == 2, f"{f.site()}: {len(saves)} save_h5 calls")
+    recv = [U(c.func.value) for c in saves]
+    if sorted(recv) != sorted(halves):
+        env = single_defs(f.node)
+        res = [U(inline(c.func.value, env)) for c in saves]
+        if any(any(k in r for k in REENCODING) for r in res):
+            ctx.bad("R7", f"{f.site()}::halves-saved-as-split", f"a saved screen is `{[r[:70] for r in res]}`: re-encoded after the split, its ids no longer agree with the other half")
+            return
+        raise AnalysisError(f"{f.site()}: the saved screens {recv} are not the names {halves} bound by the split; their lineage is not followed by this rule")
+    bad, unknown = [], []
+    for st in walk_own(f.node):
+        if not isinstance(st, (ast.Assign, ast.AugAssign, ast.AnnAssign)) or st is sp[0] or getattr(st, "lineno", 0) < sp[0].lineno:
+            continue
+        tg = st.targets if isinstance(st, ast.Assign) else [st.target]
+        hit = [x.id for t in tg for x in ast.walk(t) if isinstance(x, ast.Name) and x.id in halves]
+        if not hit:
+            continue
+        env = common_reaching(f.node, st)
+        v = inline(st.value, env) if st.value is not None else None
+        tails = {attr_tail(c) or call_name(c) for c in ast.walk(v) if isinstance(c, ast.Call)} if v is not None else set()
+        if tails & REENCODING:
+            bad.append((hit[0], sorted(tails & REENCODING)))
+        elif isinstance(v, ast.Name) and v.id in halves and v.id == hit[0]:
+            continue
+        elif v is not None and isinstance(v, ast.Call) and call_name(v) in PRESERVING:
+            continue
+        else:
+            unknown.append(U(st)[:80])
+    if bad:
+        ctx.bad("R7", f"{f.site()}::halves-saved-as-split", f"after the split `{bad[0][0]}` is re-bound through {bad[0][1]}: that half is re-encoded from its own names, so the saved training and "
+                f"test screens no longer give the same id to the same sample / (treatment, dose)")
+        return
+    if unknown:
+        raise AnalysisError(f"{f.site()}: a half of the split is re-bound after it ({unknown}); whether that keeps the id universe is not decided here")
+    ctx.ok("R7", f"{f.site()}::halves-saved-as-split", f"`{halves[0]}` and `{halves[1]}` are saved exactly as the split returned them")
+
+
+def common_reaching(fnode, st):
+    from .common import reaching_env
+    return reaching_env(fnode, st)
+
+
+RULE_FUNCS = [r1, r2, r3, r4, r5, r6, r7]
 
 
 def _drop_kw(fn_name, kw):
